@@ -702,10 +702,12 @@ GSTMTS = ["CREATE TABLE t1 (a int);", "CREATE SEQUENCE q START 1;", "CREATE TYPE
           "CREATE DATABASE db;", "CREATE TABLESPACE ts;", "SET x = 1;", "SET ANSI_NULLS ON;", "SET hive.exec.parallel;", "SET y 2 ;", "DROP TABLE old;",
           "CREATE TABLE t2 (b int); -- note", "GO",
           # entities that carry a clause naming another kind of object
-          "CREATE DATABASE db2 TABLESPACE ts2;", "CREATE SCHEMA sc2 TABLESPACE ts3;", "CREATE TABLE t3 (c int) TABLESPACE ts4;", "CREATE DATABASE db3 COMMENT 'x';"]
+          "CREATE DATABASE db2 TABLESPACE ts2;", "CREATE SCHEMA sc2 TABLESPACE ts3;", "CREATE TABLE t3 (c int) TABLESPACE ts4;", "CREATE DATABASE db3 COMMENT 'x';",
+          # further commented statements: the same comment text again, and another text (comments A, B, A in one script)
+          "CREATE TABLE t4 (d int); -- note", "CREATE SEQUENCE q2 START 1; -- other"]
 # the bucket the statement's entity belongs to: decided by the statement, not by the keys of what came out
 GKINDS = ["tables", "sequences", "types", "domains", "schemas", "databases", "tablespaces", "ddl_properties", "ddl_properties", "ddl_properties", "ddl_properties",
-          "tables", "tables", None, "databases", "schemas", "tables", "databases"]
+          "tables", "tables", None, "databases", "schemas", "tables", "databases", "tables", "sequences"]
 NG = len(GSTMTS)
 assert len(GKINDS) == NG
 GRP_BUCKETS = ["tables", "types", "sequences", "domains", "schemas", "ddl_properties", "tablespaces", "databases"]
@@ -762,7 +764,7 @@ def c_group_pipe(g1: int, g2: int, g3: int) -> bool:
 
 G1 = env_int("VF_G1", -1)
 GQUICK = env_int("VF_GQUICK", 0)
-GQUICK_SET = (0, 1, 4, 5, 6, 7, 9, 11, 12, 14, 15, 16)
+GQUICK_SET = (0, 1, 4, 5, 6, 7, 9, 11, 12, 14, 15, 16, 18, 19)
 
 
 def api_c_group_pipe(g1, g2, g3):
